@@ -16,7 +16,7 @@ from .. import roles
 from .. import guards as G
 from ..model import AnalysisError, Unknown, dotted, src
 
-TECHNIQUE = "queue-discipline usage classification, key/role agreement, must-once accounting and guard dominance over the EPR bookkeeping; abstract interpretation of small functions over an enumerated finite domain by the checker's own AST interpreter (static analysis)"
+TECHNIQUE = "queue-discipline usage classification of the request tables, key/role agreement; oldest-request lookup, retirement, result store and the consumption loop executed over all short pending lists by the checker's own AST interpreter (static analysis; abstract execution)"
 ENGINES = ["model", "flow", "circuit"]
 EXPLANATION = (
     "Over backend/executor.py: every use of the two request dictionaries is classified (append at the tail, peek [0], pop(0), len) and "
@@ -30,6 +30,7 @@ EXPLANATION = (
     ' C12.F: in the methods touching the EPR request / response queues no state change precedes a raise, an assert or a call into the network stack (which may refuse): a refused request is never outstanding. C12.K: memoisation keys cover the arguments.'
     " Executed abstractly (checker-side AST interpreter): _extract_epr_info for both directionalities with one outstanding request in each dictionary; the keep-response handler for busy / free x pair index (maps entry <pair index> of the request's qubit array of the request's application to the delivered physical qubit, defers when busy); _handle_pending_epr_responses over ALL lists of up to three pending responses with outcome in {no request, deferred, handled} (order of tries, what stays pending, one decrement before the retirement test, info stored under the pair index computed before the decrement, waits exactly when something stays pending); the three wait handlers over five delivery schedules x three initial contents (poll exactly while the awaited entries are undefined)."
     ' C12.K/D/A/B: _extract_epr_info with two requests per key and neighbouring keys, _handle_last_epr_pair for pairs left 0..2 and both roles, _has_virtual_address over three unit modules and addresses -1..4 are executed.'
+    " C12.A _store_ent_info executed (pair k fills its own window of the request's results array); the consumption loop over the pending responses is judged by its executed rule only."
 )
 LEVEL_TEXT = (
     "Static analysis, structure only: necessary shape conditions of the request/response matching for every access site. The "
